@@ -841,7 +841,7 @@ class PubKeyV4(PubKey):
         # b) version number = 4 (1 octet);
         fp.update(b'\x04')
         # c) timestamp of key creation (4 octets);
-        fp.update(self.int_to_bytes(calendar.timegm(self.created.timetuple()), 4))
+        fp.update(self.int_to_bytes(calendar.timegm(self.created.utctimetuple()), 4))
         # d) algorithm (1 octet): 17 = DSA (example);
         fp.update(self.int_to_bytes(self.pkalg))
         # e) Algorithm-specific fields.
@@ -859,7 +859,7 @@ class PubKeyV4(PubKey):
     def __bytearray__(self):
         _bytes = bytearray()
         _bytes += super(PubKeyV4, self).__bytearray__()
-        _bytes += self.int_to_bytes(calendar.timegm(self.created.timetuple()), 4)
+        _bytes += self.int_to_bytes(calendar.timegm(self.created.utctimetuple()), 4)
         _bytes += self.int_to_bytes(self.pkalg)
         _bytes += self.keymaterial.__bytearray__()
         return _bytes
@@ -1230,7 +1230,7 @@ class LiteralData(Packet):
         _bytes += self.format.encode('latin-1')
         _bytes += bytearray([len(self.filename)])
         _bytes += self.filename.encode('latin-1')
-        mtime = calendar.timegm(self.mtime.timetuple())
+        mtime = calendar.timegm(self.mtime.utctimetuple())
         if mtime >= 1 << 32:
             raise ValueError("literal data time does not fit in four octets")
         _bytes += self.int_to_bytes(mtime, 4)
